@@ -53,6 +53,16 @@ CLAIMED["C10"] = dict(
     note="Trusted: Lean kernel and standard axioms; model validated by the sweep; IEEE-754 rounding validated not proved (theorems do not "
          "depend on it); well-formedness (message length >= 1, hash+parity >= 1 per block) is an explicit hypothesis.")
 
+CLAIMED["C07"] = dict(
+    text="Kernel-checked theorems over a model of the directory walk (inductive tree, files before sub-directories, sorted), the sort key "
+         "and the alignment loop of synchronize_files: the walk is strictly increasing in the alignment order; for replicas read in that "
+         "order every path of the union is emitted exactly once, grouped with exactly the replicas containing it (all together, in replica "
+         "order); hence `pff dup` output paths = union and a file with >= 3 copies and a byte-wise majority intact is restored (via the C06 "
+         "theorems). Tied to /repo by running `pff dup` on generated forests (report rows, output bytes, exit).",
+    design="§6 C07", technique="Lean 4 proof (order facts, mutual induction on trees, induction on the merge loop) + model/implementation correspondence",
+    note="Trusted: Lean kernel and standard axioms; model validated by sampling; os.walk order after in-place sort and Python str/tuple "
+         "comparison modelled; dir-vs-file clashes between replicas excluded as the property says.")
+
 NOT_YET = {}
 
 props = [json.loads(l) for l in open(os.path.join(VERIF, "properties.jsonl"))]
